@@ -22,6 +22,11 @@ func genC10(t *rapid.T) C10Scn {
 			s.Links = append(s.Links, C01Link{A: e[0], B: e[1], Cost4: rapid.SampledFrom([]int{4, 4, 8, 2}).Draw(t, "cost4")})
 		}
 	}
+	if rapid.IntRange(0, 3).Draw(t, "tight") == 0 {
+		s.TightHops = true
+		// the two probes that meet the maximum exactly when the mesh is a chain
+		s.Probes = append(s.Probes, C10Probe{Kind: "trace", Src: 0, Dst: n - 1}, C10Probe{Kind: "ping", Src: n - 1, Dst: 0, H: n - 1})
+	}
 	np := rapid.IntRange(1, 10).Draw(t, "nprobes")
 	for i := 0; i < np; i++ {
 		p := C10Probe{Kind: rapid.SampledFrom([]string{"ping", "ping", "dgram", "dgram", "trace"}).Draw(t, "kind"),
@@ -42,7 +47,7 @@ func genC10(t *rapid.T) C10Scn {
 }
 
 func TestC10(t *testing.T) {
-	st := vx.NewStats("C10", "hops", "real converged meshes of 2-6 nodes (chains and general graphs); 1-10 probes {Ping, Traceroute, datagram with SetHopsToLive} for drawn (source, destination, budget 0..255, "+
+	st := vx.NewStats("C10", "hops", "real converged meshes of 2-6 nodes (chains and general graphs; maximum hop count 30, or in one case of four N-1 = the longest possible route); 1-10 probes {Ping, Traceroute, datagram with SetHopsToLive} for drawn (source, destination, budget 0..255, "+
 		"biased to the neighbourhood of the route length); then, for a phantom destination, every node's next hop is set to a drawn neighbour (functional graphs with 2- and 3-cycles) and datagrams with drawn "+
 		"budgets are injected; oracle: d = length of the actual next-hop chain; reach iff d <= h, otherwise 'message expired' from chain[h]; traceroute lists the chain; through loops the link taps show exactly h "+
 		"transmissions along the installed hops with decreasing TTL, then one expiry notice from walk[h] and silence; non-trivial = budget < distance, or a loop walk with budget >= 3; distinct by canonical JSON")
